@@ -1038,6 +1038,197 @@ static std::string op_poly(const std::vector<std::string>& w)
     return "bad-args";
 }
 
+// ---- C06 / C03: both loading routes, a fixed battery of every public query, and clearing
+static const float BATTERY_T[] = { -1.0f, 0.0f, 0.5f, 1.0f, 2.5f, 10.0f, 100.0f, 1e9f, INFINITY };
+static const unsigned long BATTERY_MS[] = { 0, 1, 20, 500, 1000, 5000, 60000 };
+
+static std::string obs_traj(sb_trajectory_t* t)
+{
+    std::string o = "E" + S(sb_trajectory_is_empty(t) ? 1 : 0) + " D" + U(sb_trajectory_get_total_duration_msec(t)) + ":" + fhex(sb_trajectory_get_total_duration_sec(t));
+    sb_trajectory_player_t pl;
+    sb_error_t e = sb_trajectory_player_init(&pl, t);
+    o += " I" + code(e);
+    if (e == SB_SUCCESS) {
+        for (float tt : BATTERY_T) {
+            sb_vector3_with_yaw_t v;
+            e = sb_trajectory_player_get_position_at(&pl, tt, &v);
+            o += " p" + code(e) + (e ? "" : ":" + vec4hex(v));
+            e = sb_trajectory_player_get_velocity_at(&pl, tt, &v);
+            o += " v" + code(e) + (e ? "" : ":" + vec4hex(v));
+            e = sb_trajectory_player_get_acceleration_at(&pl, tt, &v);
+            o += " a" + code(e) + (e ? "" : ":" + vec4hex(v));
+        }
+        uint32_t d = 0;
+        e = sb_trajectory_player_get_total_duration_msec(&pl, &d);
+        o += " d" + code(e) + ":" + U(d);
+        sb_trajectory_player_destroy(&pl);
+    }
+    sb_vector3_with_yaw_t v;
+    e = sb_trajectory_get_start_position(t, &v);
+    o += " s" + code(e) + (e ? "" : ":" + vec4hex(v));
+    e = sb_trajectory_get_end_position(t, &v);
+    o += " e" + code(e) + (e ? "" : ":" + vec4hex(v));
+    sb_bounding_box_t bb;
+    memset(&bb, 0, sizeof bb);
+    e = sb_trajectory_get_axis_aligned_bounding_box(t, &bb);
+    // the box of degree-7 axes is left unset by the library (finding D13): not part of the route comparison
+    o += " b" + code(e);
+    o += " T" + fhex(sb_trajectory_propose_takeoff_time_sec(t, 2.5f, 2.0f, 4.0f));
+    o += " L" + fhex(sb_trajectory_propose_landing_time_sec(t, 2.5f, 0.05f));
+    return o;
+}
+
+static std::string obs_light(sb_light_program_t* p)
+{
+    std::string o;
+    sb_light_player_t pl;
+    sb_error_t e = sb_light_player_init(&pl, p);
+    o += "I" + code(e);
+    if (e == SB_SUCCESS) {
+        for (unsigned long ms : BATTERY_MS) {
+            sb_rgb_color_t c = sb_light_player_get_color_at(&pl, ms);
+            o += " c" + S(c.red) + "," + S(c.green) + "," + S(c.blue);
+            o += " y" + S(sb_light_player_get_pyro_channels_at(&pl, ms));
+        }
+        unsigned long nx = 0;
+        sb_bool_t en = sb_light_player_seek(&pl, 777, &nx);
+        o += " s" + S(en ? 1 : 0) + "," + U(nx);
+        sb_light_player_destroy(&pl);
+    }
+    return o;
+}
+
+static std::string obs_yaw(sb_yaw_control_t* y)
+{
+    std::string o = "E" + S(sb_yaw_control_is_empty(y) ? 1 : 0) + " n" + U(y->num_deltas) + " a" + S(y->auto_yaw ? 1 : 0) + " o" + S(y->yaw_offset_ddeg);
+    sb_yaw_player_t pl;
+    sb_error_t e = sb_yaw_player_init(&pl, y);
+    o += " I" + code(e);
+    if (e == SB_SUCCESS) {
+        for (float tt : BATTERY_T) {
+            float v = 0;
+            e = sb_yaw_player_get_yaw_at(&pl, tt, &v);
+            o += " y" + code(e) + (e ? "" : ":" + fhex(v));
+            e = sb_yaw_player_get_yaw_rate_at(&pl, tt, &v);
+            o += " r" + code(e) + (e ? "" : ":" + fhex(v));
+        }
+        uint32_t d = 0;
+        e = sb_yaw_player_get_total_duration_msec(&pl, &d);
+        o += " d" + code(e) + ":" + U(d);
+        sb_yaw_player_destroy(&pl);
+    }
+    return o;
+}
+
+static std::string obs_rth(sb_rth_plan_t* p)
+{
+    std::string o = "E" + S(sb_rth_plan_is_empty(p) ? 1 : 0) + " n" + U(sb_rth_plan_get_num_entries(p)) + " m" + U(sb_rth_plan_get_num_points(p));
+    for (size_t i = 0; i < 3; i++) {
+        sb_vector2_t pt;
+        sb_error_t e = sb_rth_plan_get_point(p, i, &pt);
+        o += " P" + code(e) + (e ? "" : ":" + fhex(pt.x) + "," + fhex(pt.y));
+    }
+    const float ts[] = { -1.0f, 0.0f, 5.0f, 100.0f, 1e9f, INFINITY };
+    for (float tt : ts) {
+        sb_rth_plan_entry_t en;
+        memset(&en, 0, sizeof en);
+        sb_error_t e = sb_rth_plan_evaluate_at(p, tt, &en);
+        o += " q" + code(e);
+        if (e == SB_SUCCESS) {
+            o += ":" + fhex(en.time_sec) + "," + S((int)en.action) + "," + fhex(en.duration_sec) + "," + fhex(en.target.x) + "," + fhex(en.target.y) + "," + fhex(en.target_altitude) + ","
+                + fhex(en.pre_delay_sec) + "," + fhex(en.post_delay_sec) + "," + fhex(en.pre_neck_mm) + "," + fhex(en.pre_neck_duration_sec);
+            // the entry converts to a trajectory
+            sb_trajectory_t tr;
+            sb_vector3_with_yaw_t st = { 100.0f, 200.0f, 1000.0f, 0.0f };
+            sb_error_t e2 = sb_trajectory_init_from_rth_plan_entry(&tr, &en, st);
+            o += "/" + code(e2);
+            if (e2 == SB_SUCCESS) {
+                o += ":" + U(sb_trajectory_get_total_duration_msec(&tr));
+                sb_trajectory_destroy(&tr);
+            }
+        }
+    }
+    return o;
+}
+
+// routes <kind> <hex>: load through a descriptor and from memory, compare every observation
+static std::string op_routes(const std::vector<std::string>& w)
+{
+    const std::string& kind = w[1];
+    std::vector<uint8_t> b = unhex(w[2]);
+    std::string obs[2], blk[2];
+    sb_error_t err[2];
+    for (int r = 0; r < 2; r++) {
+        Guarded g(b);
+        int fd = r == 0 ? make_fd(b) : -1;
+        sb_error_t e;
+        std::string o;
+        if (kind == "traj") {
+            sb_trajectory_t t;
+            e = r == 0 ? sb_trajectory_init_from_binary_file(&t, fd) : sb_trajectory_init_from_binary_file_in_memory(&t, g.ptr, g.n);
+            if (e == SB_SUCCESS) {
+                blk[r] = hex(SB_BUFFER(t.buffer), sb_buffer_size(&t.buffer));
+                o = obs_traj(&t);
+                sb_error_t ec = sb_trajectory_clear(&t);
+                o += " | clear" + code(ec) + " " + obs_traj(&t);
+                sb_trajectory_destroy(&t);
+            }
+        } else if (kind == "light") {
+            sb_light_program_t t;
+            e = r == 0 ? sb_light_program_init_from_binary_file(&t, fd) : sb_light_program_init_from_binary_file_in_memory(&t, g.ptr, g.n);
+            if (e == SB_SUCCESS) {
+                blk[r] = hex(SB_BUFFER(t.buffer), sb_buffer_size(&t.buffer));
+                o = obs_light(&t);
+                sb_light_program_clear(&t);
+                o += " | clear " + obs_light(&t);
+                sb_light_program_destroy(&t);
+            }
+        } else if (kind == "yaw") {
+            sb_yaw_control_t t;
+            e = r == 0 ? sb_yaw_control_init_from_binary_file(&t, fd) : sb_yaw_control_init_from_binary_file_in_memory(&t, g.ptr, g.n);
+            if (e == SB_SUCCESS) {
+                blk[r] = hex(SB_BUFFER(t.buffer), sb_buffer_size(&t.buffer));
+                o = obs_yaw(&t);
+                sb_yaw_control_destroy(&t);
+            }
+        } else {
+            sb_rth_plan_t t;
+            e = r == 0 ? sb_rth_plan_init_from_binary_file(&t, fd) : sb_rth_plan_init_from_binary_file_in_memory(&t, g.ptr, g.n);
+            if (e == SB_SUCCESS) {
+                blk[r] = hex(t.buffer, t.buffer_length);
+                o = obs_rth(&t);
+                sb_rth_plan_destroy(&t);
+            }
+        }
+        err[r] = e;
+        obs[r] = o;
+        if (fd >= 0) {
+            close(fd);
+        }
+    }
+    if (err[0] != SB_SUCCESS && err[1] != SB_SUCCESS) {
+        return "fail:" + S(err[0]) + ":" + S(err[1]);
+    }
+    if (err[0] != SB_SUCCESS || err[1] != SB_SUCCESS) {
+        return "MISMATCH:fd=" + S(err[0]) + ":mem=" + S(err[1]);
+    }
+    if (blk[0] != blk[1]) {
+        return "ok:" + U(blk[0] == "-" ? 0 : blk[0].size() / 2) + ":blockdiff";
+    }
+    std::string res = "ok:" + U(blk[0] == "-" ? 0 : blk[0].size() / 2) + ":";
+    if (obs[0] == obs[1]) {
+        return res + "same";
+    }
+    // first differing token
+    std::vector<std::string> a = split(obs[0]), c = split(obs[1]);
+    for (size_t i = 0; i < a.size() && i < c.size(); i++) {
+        if (a[i] != c[i]) {
+            return res + "diff@" + S((long long)i) + ":fd=" + a[i] + ":mem=" + c[i];
+        }
+    }
+    return res + "diff@len";
+}
+
 static std::string op_crc(const std::vector<std::string>& w)
 {
     // crc <init> <hex> <split points, csv or ->: successive calls on the pieces
@@ -1083,6 +1274,9 @@ static std::string run_case(const std::vector<std::string>& w)
     }
     if (op == "file") {
         return op_file(w);
+    }
+    if (op == "routes") {
+        return op_routes(w);
     }
     if (op == "stats") {
         return op_stats(w);
